@@ -754,6 +754,9 @@ func (vc *VC) contractCall(st *State, call *ast.CallExpr, c *FuncContract, fn *t
 			// heap array pattern: Type.field
 			vc.havocPattern(st, a)
 		}
+		// the callee's frame obligation does not cover fields of library objects (verify.go), so
+		// the caller does not keep them across the call either
+		vc.havocLibraryFields(st)
 	case hasBody || isRqlitePkg(pkgPath):
 		vc.havocHeap(st, c.Key)
 	default:
@@ -883,7 +886,14 @@ func shortKey(k string) string {
 	return strings.ReplaceAll(k, modPath+"/", "")
 }
 
+// libFieldsPattern: effect of a call under an assigns clause on the fields of library objects.
+const libFieldsPattern = "<libfields>"
+
 func (vc *VC) havocPattern(st *State, pat string) {
+	if pat == libFieldsPattern {
+		vc.havocLibraryFields(st)
+		return
+	}
 	// pat is a field name ("delayFactor"), "Type.field", or a heap array name prefix ("Elems")
 	field := pat
 	typ := ""
@@ -1337,6 +1347,7 @@ func (vc *VC) callEffects(call *ast.CallExpr, ef *effects) {
 				}
 			}
 			if !star {
+				ef.patterns = append(ef.patterns, libFieldsPattern)
 				return
 			}
 		}
